@@ -18,6 +18,9 @@ pub struct Case {
   pub policy: Policy,
   pub late: bool,
   pub seed: u64,
+  /// only for scripts without a terminal: some time after the last item the source goes away
+  /// (the subject drops its observers); what is pending is still owed
+  pub gone_after: Option<u64>,
 }
 
 pub fn random_case(r: &mut Rng, max_items: usize) -> Case {
@@ -42,8 +45,13 @@ pub fn random_case(r: &mut Rng, max_items: usize) -> Case {
     t += gaps[r.below(gaps.len())] * MS;
     script.push((t, N::Next(V::I(100 + i as i64))));
   }
+  let mut gone_after = None;
   match r.below(6) {
-    0 => {}
+    0 => {
+      if r.chance(1, 2) {
+        gone_after = Some(gaps[r.below(gaps.len())] * MS);
+      }
+    }
     1 => {
       t += gaps[r.below(gaps.len())] * MS;
       script.push((t, N::Err(7)))
@@ -60,6 +68,7 @@ pub fn random_case(r: &mut Rng, max_items: usize) -> Case {
     policy: if r.chance(1, 2) { Policy::Fifo } else { Policy::Any },
     late: r.chance(1, 3),
     seed: r.next(),
+    gone_after,
   }
 }
 
@@ -69,8 +78,11 @@ pub struct Obs {
 }
 
 pub fn observe(c: &Case) -> Result<Obs, String> {
-  let acts: Vec<TAct> = c.script.iter().map(|(t, n)| TAct { t: *t, act: Act::In(0, n.clone()) }).collect();
+  let mut acts: Vec<TAct> = c.script.iter().map(|(t, n)| TAct { t: *t, act: Act::In(0, n.clone()) }).collect();
   let last = c.script.last().map_or(0, |(t, _)| *t);
+  if let Some(g) = c.gone_after {
+    acts.push(TAct { t: last + g, act: Act::Gone(0) });
+  }
   let pipe = Pipe { chain: Chain::new(Src::Hot(0), vec![c.op.clone()]), n_hot: 1, acts, horizon: last + 40 * MS };
   let out = run_pipe(c.flavor, &pipe, c.policy, c.late, c.seed, &mut |_, _, _| {})?;
   Ok(Obs { timed: timed_of(&out.evs, 1), choice_hash: out.choice_hash })
@@ -440,6 +452,9 @@ pub fn run(cfg: &Cfg, rep: &mut Report) {
     }
     let c = random_case(&mut r, maxi);
     rep.evaluations += 1;
+    if c.gone_after.is_some() {
+      rep.count("scripts_whose_source_goes_away_unterminated", 1);
+    }
     let o = observe(&c);
     rep.set("operators_covered", &locus(&c));
     if c.flavor == Flavor::LocalPool {
